@@ -123,6 +123,20 @@ pub fn targets() -> Vec<Tg> {
     tg!(v, SpannedValue<u8>, many(&["v = 300", "v", "v(x)"]));
     tg!(v, Override<u8>, many(&["v = 300", "v = \"x\"", "v(x)"]));
     tg!(v, WithOriginal<u8, syn::Meta>, many(&["v = 300", "v"]));
+    // a refused *value* is reported at the value, not at the whole item: bare words, paths and
+    // strings handed to targets that cannot take them, among siblings
+    let at_value = |vals: &[&str]| -> Vec<String> {
+        vals.iter().flat_map(|x| vec![format!("w(v = ⟦{x}⟧, z = 1)"), format!("w(a = 1, v = ⟦{x}⟧, z = 1)"), format!("w(a = 1, z, v = ⟦{x}⟧)"), format!("v = ⟦{x}⟧")]).collect()
+    };
+    tg!(v, u8, at_value(&["high", "a::b", "\"high\"", "300", "-1", "1.5", "yes"]));
+    tg!(v, bool, at_value(&["maybe", "on", "\"maybe\"", "5", "yes"]));
+    tg!(v, char, at_value(&["comma", "\"ab\"", "5"]));
+    tg!(v, f64, at_value(&["fast", "\"fast\"", "'c'"]));
+    tg!(v, String, at_value(&["fast", "5", "a::b", "true"]));
+    tg!(v, std::path::PathBuf, at_value(&["fast", "5"]));
+    tg!(v, PathList, at_value(&["\"Debug, +\"", "\"Debug, Clone = 1\"", "\"a, x(y)\"", "\"Debug, Clone\"", "fast", "5"]));
+    tg!(v, Callable, at_value(&["\"a::b\"", "\"|x| x\"", "5", "1 + 2"]));
+    tg!(v, syn::LitStr, at_value(&["fast", "5"]));
     v
 }
 
